@@ -2,6 +2,7 @@ import Proofs.Lemmas.ReqSolo
 import Proofs.Lemmas.ReqSite
 import Proofs.Lemmas.ReqLimit
 import Proofs.Lemmas.ReqReg
+import Proofs.Lemmas.ReqIC
 import Generated.C11Superglobals
 /-!
 # C11 — concurrent HTTP requests do not interfere: a response depends on its request
@@ -589,6 +590,114 @@ theorem C11_registry_keys_generated :
 
 end Registry
 
+section CallSite
+open Model.ReqIC Proofs.ReqIC
+
+/-- **Call-site memory, isolation (prefix form).** The node of `$obj->m(…)` may remember the class
+and the resolved method of the receiver it saw last, provided probe and fill are indivisible
+(`publish ≠ torn`) and — when it remembers anything at all — the class identity of `r`'s receiver is
+`r`'s alone (`Apart`: the per-request proxy classes of `$req` / `$res`).  Then after ANY schedule —
+any number of other requests executing the same call sites, with whatever receivers, parked wherever —
+what is left of `r`'s program, continued by the specification, gives the specified response: every
+call `r` has made so far observed `r`'s own datum. -/
+theorem C11_callsite_isolation_prefix (w : Model.ReqIC.World) (hp : w.publish ≠ .torn) (r : Rid)
+    (ha : w.publish = .atomic → Apart w r) (sched : List Rid) :
+    let s := Model.ReqIC.run w (Model.ReqIC.init w) sched
+    Spec.ReqIC.go (w.env r) (s.req r).pc (s.req r).pending (s.req r).body = Spec.ReqIC.respond (w.env r) (w.prog r) :=
+  (inv_run w hp r ha sched _ (inv_init w r)).onTrack
+
+/-- **Call-site memory, isolation.** Under the same hypotheses every request the schedule lets finish
+has written what it writes when served alone, which is the specification's function of its own
+datum and program. -/
+theorem C11_callsite_isolation (w : Model.ReqIC.World) (hp : w.publish ≠ .torn) (r : Rid)
+    (ha : w.publish = .atomic → Apart w r) (sched : List Rid)
+    (hdone : Model.ReqIC.finished (Model.ReqIC.run w (Model.ReqIC.init w) sched) r = true) :
+    Model.ReqIC.response (Model.ReqIC.run w (Model.ReqIC.init w) sched) r = Model.ReqIC.soloResponse w r ∧
+    Model.ReqIC.soloResponse w r = Spec.ReqIC.respond (w.env r) (w.prog r) := by
+  have h1 := onTrack_finished (inv_run w hp r ha sched _ (inv_init w r)).onTrack
+    (by simpa [Model.ReqIC.finished] using hdone)
+  have h2 := onTrack_finished (inv_run w hp r ha (List.replicate (4 * (w.prog r).length) r) _ (inv_init w r)).onTrack
+    (solo_finished w hp r)
+  exact ⟨by simp only [Model.ReqIC.response, Model.ReqIC.soloResponse, Model.ReqIC.solo] at *; rw [h1, h2], h2⟩
+
+/-- **No memory in the node** (what the pinned tree does: `class.GetMethod(name)` on every evaluation):
+every request is isolated, whatever the class identities are. -/
+theorem C11_callsite_no_memory (w : Model.ReqIC.World) (hp : w.publish = .none) (r : Rid) (sched : List Rid)
+    (hdone : Model.ReqIC.finished (Model.ReqIC.run w (Model.ReqIC.init w) sched) r = true) :
+    Model.ReqIC.response (Model.ReqIC.run w (Model.ReqIC.init w) sched) r = Spec.ReqIC.respond (w.env r) (w.prog r) := by
+  have h := C11_callsite_isolation w (by simp [hp]) r (by simp [hp]) sched hdone
+  rw [h.1, h.2]
+
+/-- **Any node memory of a per-request-bound value leaks unless its key identifies the request** —
+even with indivisible probe and fill.  Two different requests whose receivers have the SAME class
+identity (a script class, a bound callable made from a shared definition, a proxy class made once
+for all requests) but whose method objects are bound to the request: the second one to reach a call
+site invokes the method the first one filed there and answers with the first one's datum.  For every
+world of that shape, not for a sample. -/
+theorem C11_callsite_shared_class_leaks (w : Model.ReqIC.World) (hp : w.publish = .atomic) (r₀ r₁ : Rid) (s : Site)
+    (hne : r₀ ≠ r₁) (hk : w.cls r₀ = w.cls r₁) (p₀ : List Model.ReqIC.Step)
+    (h₀ : w.prog r₀ = .call s :: p₀) (h₁ : w.prog r₁ = [.call s, .write]) :
+    Model.ReqIC.response (Model.ReqIC.run w (Model.ReqIC.init w) [r₀, r₁, r₁]) r₁ = [some (w.env r₀)] ∧
+    Spec.ReqIC.respond (w.env r₁) (w.prog r₁) = [some (w.env r₁)] := by
+  have hne' : ¬ r₁ = r₀ := fun h => hne h.symm
+  constructor
+  · simp [Model.ReqIC.response, Model.ReqIC.run, Model.ReqIC.stepReq, Model.ReqIC.localStep, Model.ReqIC.exec,
+      Model.ReqIC.init, Model.ReqIC.invoke, Cache.setCls, Cache.setMeth, hp, h₀, h₁, hk, hne']
+  · simp [h₁, Spec.ReqIC.respond, Spec.ReqIC.go]
+
+/-- two requests, per-request class identities (`cls r = r`: injective, as for `$req` / `$res`),
+both executing call site 0 twice (a loop), datum `7 + r` -/
+def icWorld (p : Model.ReqIC.Publish) : Model.ReqIC.World :=
+  { publish := p, cls := fun r => r, prog := fun _ => [.call 0, .call 0, .write], env := fun r => 7 + r }
+
+/-- **The torn publish** (seeded/C11-inline-method-cache-torn). Class identities are per request, so an
+indivisible cache would be sound (`C11_callsite_isolation`); with two plain fields:
+(fill torn) request 0 has stored `icClass`, request 1 fills both words, request 0 stores `icMethod` —
+the node now reads (class of 1, method of 0) — and request 1, back at the site, hits and answers its
+second call with request 0's datum: `[8, 7]`; alone `[8, 8]`; the same schedule with an indivisible
+cache `[8, 8]`;
+(probe torn) request 1 has loaded its own `icClass`, request 0 refills both words, request 1 loads
+`icMethod`: `[8, 7]` again. -/
+theorem C11_callsite_torn_publish_leaks :
+    Model.ReqIC.response (Model.ReqIC.run (icWorld .torn) (Model.ReqIC.init (icWorld .torn)) [0, 0, 1, 1, 1, 0, 1, 1, 1]) 1
+      = [some 8, some 7] ∧
+    Model.ReqIC.response (Model.ReqIC.run (icWorld .torn) (Model.ReqIC.init (icWorld .torn)) [1, 1, 1, 1, 0, 0, 0, 1, 1]) 1
+      = [some 8, some 7] ∧
+    Model.ReqIC.soloResponse (icWorld .torn) 1 = [some 8, some 8] ∧
+    Spec.ReqIC.respond ((icWorld .torn).env 1) ((icWorld .torn).prog 1) = [some 8, some 8] ∧
+    Model.ReqIC.response (Model.ReqIC.run (icWorld .atomic) (Model.ReqIC.init (icWorld .atomic)) [0, 0, 1, 1, 1, 0, 1, 1, 1]) 1
+      = [some 8, some 8] ∧
+    Model.ReqIC.finished (Model.ReqIC.run (icWorld .torn) (Model.ReqIC.init (icWorld .torn)) [0, 0, 1, 1, 1, 0, 1, 1, 1]) 1 = true := by
+  decide
+
+/-- the isolation statement without `publish ≠ torn` is false, even with per-request class identities -/
+theorem C11_callsite_isolation_counterexample :
+    ¬ (∀ (w : Model.ReqIC.World) (r : Rid) (sched : List Rid), Apart w r →
+        Model.ReqIC.finished (Model.ReqIC.run w (Model.ReqIC.init w) sched) r = true →
+        Model.ReqIC.response (Model.ReqIC.run w (Model.ReqIC.init w) sched) r = Spec.ReqIC.respond (w.env r) (w.prog r)) := by
+  intro h
+  have := h (icWorld .torn) 1 [0, 0, 1, 1, 1, 0, 1, 1, 1] (fun r' hr => hr) (by decide)
+  revert this
+  decide
+
+/-- **Obligation + instance for the analysed tree**: no evaluation-time method of a syntax node stores
+into its own receiver outside the listed memos of process-wide definitions (regenerated every run) —
+in particular no call-site node keeps a class / method / bound callable of the receiver it saw —
+hence `publishOf facts = none` and every request's method calls act on the request itself, under
+every schedule, any number of requests, any class identities. -/
+theorem C11_callsite_generated :
+    Generated.C11Superglobals.facts.nodeWriteViolations = [] ∧
+    ∀ (cls : Rid → Cls) (prog : Rid → List Model.ReqIC.Step) (env : Rid → Model.ReqIC.Val) (r : Rid) (sched : List Rid),
+      let w : Model.ReqIC.World := { publish := publishOf Generated.C11Superglobals.facts, cls := cls, prog := prog, env := env }
+      Model.ReqIC.finished (Model.ReqIC.run w (Model.ReqIC.init w) sched) r = true →
+      Model.ReqIC.response (Model.ReqIC.run w (Model.ReqIC.init w) sched) r = Spec.ReqIC.respond (env r) (prog r) := by
+  have hv : Generated.C11Superglobals.facts.nodeWriteViolations = [] := by decide
+  refine ⟨hv, ?_⟩
+  intro cls prog env r sched w hdone
+  exact C11_callsite_no_memory w (by simp [w, publishOf, hv]) r sched hdone
+
+end CallSite
+
 /-! ## Non-vacuity -/
 
 /-- a world with per-request storage, three requests, each reading `$_GET`, `$_REQUEST`, writing `$_SESSION` -/
@@ -637,6 +746,15 @@ example : Proofs.ReqSite.PrivProg (siteWorld .perEvaluation).scope ((siteWorld .
 /-- the node-write facts are not empty: the translator sees the stores of the definition memos and of the generator states -/
 example : Generated.C11Superglobals.facts.nodeWrites.any (fun w => w.parserBuilt && w.typ == "NewExpression") = true ∧
     Generated.C11Superglobals.facts.nodeWrites.any (fun w => !w.parserBuilt && w.typ == "FuncYieldStackState") = true := by decide
+
+/-- the hypotheses of the call-site theorems are satisfiable: per-request class identities are apart,
+the witness requests finish, and an indivisible cache really hits (the second call of request 1 finds
+its own entry after request 0 has come and gone) -/
+example : Proofs.ReqIC.Apart (C11.icWorld .atomic) 1 ∧
+    Model.ReqIC.finished (Model.ReqIC.run (C11.icWorld .atomic) (Model.ReqIC.init (C11.icWorld .atomic)) [1, 0, 0, 0, 1, 1]) 1 = true ∧
+    (Model.ReqIC.run (C11.icWorld .atomic) (Model.ReqIC.init (C11.icWorld .atomic)) [1, 1]).cache.cls 0 = some 1 ∧
+    Model.ReqIC.publishOf Generated.C11Superglobals.facts = .none :=
+  ⟨fun _ h => h, by decide, by decide, by decide⟩
 
 end C11
 
